@@ -206,6 +206,7 @@ type worldCfg struct {
 	gateFirst   bool          // the first list is gated too: the root is not ready until releaseFirst
 	checkReady  bool          // C08: list every node's cache at the instant its Ready() is observed
 	stepChecked bool          // the test calls checkQuiet after every single operation, starting right after creation
+	plans       []sessPlan    // fault plans of the first watch sessions
 }
 
 type world struct {
@@ -298,6 +299,7 @@ func newWorld(t failer, cfg worldCfg) *world {
 	if cfg.gateFirst {
 		w.api.gated = true
 	}
+	w.api.plans = append(w.api.plans, cfg.plans...)
 	root, err := b.Create()
 	if err != nil {
 		t.Fatalf("harness: cannot create controller: %v", err)
